@@ -11,7 +11,7 @@ Mth(file, verb, route, hidden, deprecated, sec) ==
      ret |-> <<"error">>, errors |-> <<>>, response |-> 0, desc |-> ""]
 
 SecShapes == { <<>>, <<S("s1", <<>>)>>, <<S("s1", <<"r">>), S("s2", <<"w", "x">>)>>, <<S("s2", <<>>), S("s2", <<"r">>)>>, <<S("s2", <<"w">>), S("s1", <<>>)>> }
-SecShapesU == SecShapes \cup { <<S("s9", <<>>)>> }       \* s9 is never declared
+SecShapesU == SecShapes \cup { <<S("s9", <<>>)>>, <<S("S1", <<"r">>)>> }       \* s9 is never declared; nor is S1 (names are case-sensitive)
 
 \* ---- C04: one route, every combination of the three security levels, enforce, default, declared/undeclared -------------
 CfgsC04 == { Cfg("gin", v, e, d, <<"s1", "s2">>) : v \in {"3.0.0", "3.1.0"}, e \in BOOLEAN, d \in {NoSec, S("s1", <<"d">>)} }
@@ -21,7 +21,9 @@ MethodsC04 == { Mth("", "GET", "/x", h, FALSE, sec) : h \in BOOLEAN, sec \in Sec
 \* ---- C01: routes, prefixes, verbs, hidden/deprecated, two controllers, foreign files --------------------------------
 CfgsC01 == { Cfg("gin", v, FALSE, NoSec, <<"s1", "s2">>) : v \in {"3.0.0", "3.1.0"} }
 \* (tag "" = no @Tag; together with prefix "" the controller has no doc comment at all)
-CtrlsC01 == { Ctl(pk, f, n, pre, tg, <<>>) : pk \in {"p1", "p2"}, f \in {"f1", "f2"}, n \in {"AController", "BController"}, pre \in {"", "/a", "/a/", "/{t}", "/b"}, tg \in {"Tag", ""} }
+\* (package "p1/f1x": a nested package whose directory sorts BETWEEN the files f1.go and f2.go of its parent - the files of one
+\*  package are then not adjacent in path order)
+CtrlsC01 == { Ctl(pk, f, n, pre, tg, <<>>) : pk \in {"p1", "p2", "p1/f1x"}, f \in {"f1", "f2"}, n \in {"AController", "BController"}, pre \in {"", "/a", "/a/", "/{t}", "/b"}, tg \in {"Tag", ""} }
 MethodsC01 == { Mth(f, v, r, h, d, <<>>) : f \in {"", "f2"}, v \in {"GET", "POST", "DELETE"}, r \in {"/", "/x", "x", "//x", "/x/", "/{id}", "/{id}/y", "/{key}"},
                                            h \in BOOLEAN, d \in BOOLEAN }
 
@@ -32,14 +34,14 @@ MethodsC15 == { Mth("", v, r, FALSE, FALSE, <<>>) : v \in {"GET", "POST"}, r \in
 
 \* ---- simulation: everything together ----------------------------------------------------------------------------------
 CfgsSim == { Cfg(en, v, e, d, <<"s1", "s2">>) : en \in {"gin", "echo", "mux", "chi", "fiber"}, v \in {"3.0.0", "3.1.0"}, e \in BOOLEAN, d \in {NoSec, S("s1", <<"d">>)} }
-CtrlsSim == { Ctl(pk, f, n, pre, tg, sec) : pk \in {"p1", "p2"}, f \in {"f1", "f2"}, n \in {"AController", "BController", "CController"},
+CtrlsSim == { Ctl(pk, f, n, pre, tg, sec) : pk \in {"p1", "p2", "p1/f1x"}, f \in {"f1", "f2"}, n \in {"AController", "BController", "CController"},
                                             pre \in {"", "/a", "/a/", "/{t}", "/b", "/c/d"}, tg \in {"A", "Tag B", ""}, sec \in SecShapes }
 CtrlsSimD == { [c EXCEPT !.desc = ds] : c \in CtrlsSim, ds \in {"", "\n", "A controller\n"} }
 \* doc-comment layouts: no free text, plain text, nothing but blank comment lines, text followed / preceded by blank lines
 DescChoices == {"", "Does something", "\n", "\nText after a blank line", "Text\n\nmore text\n"}
-MethodsSim == { [Mth(f, v, r, h, d, sec) EXCEPT !.desc = ds] : f \in {"", "f1", "f2"}, v \in {"GET", "POST", "PUT", "DELETE", "PATCH"},
+MethodsSim == { [Mth(f, v, r, h, d, sec) EXCEPT !.desc = ds] @@ [hiddenSfx |-> hs, deprecatedSfx |-> dps] : f \in {"", "f1", "f2"}, v \in {"GET", "POST", "PUT", "DELETE", "PATCH"},
                                           r \in {"/", "/x", "x", "//x", "/x/", "/{id}", "/{id}/y", "/x/{id}", "/y", "/{key}", "/x/{key}"}, h \in BOOLEAN, d \in BOOLEAN, sec \in SecShapes,
-                                          ds \in DescChoices }
+                                          ds \in DescChoices, hs \in {"", "(INTERNAL)", " not for the public docs"}, dps \in {"", " use the v2 route instead"} }
 \* ---- C06: parameter lists, pointer-ness, locations, aliases, validators, return shapes, error responses --------------------
 NoTypes == {<<>>}
 Fld(n, t, js, v) == [name |-> n, type |-> t, json |-> js, valid |-> v, desc |-> "", embed |-> FALSE, deprecated |-> FALSE]
@@ -60,7 +62,7 @@ ParamsC06 ==
     \cup { Prm(n, t, "Query", al, v) : n \in {"b"}, t \in {"string", "*string", "int", "*int", "bool", "float64", "float32", "*float32", "int8", "uint8", "uint", "int64", "[]string", "[]int", "p1.Color", "*p1.Color"},
                                          al \in {"", "x-b"}, v \in {"", "required", "omitempty"} }
     \cup { Prm(n, t, "Header", al, v) : n \in {"c"}, t \in {"string", "*string", "int", "*bool", "float32", "uint8"}, al \in {"", "X-C"}, v \in {"", "required"} }
-    \cup { Prm(n, t, "FormField", "", v) : n \in {"d"}, t \in {"string", "*int"}, v \in {"", "required"} }
+    \cup { Prm(n, t, "FormField", al, v) : n \in {"d"}, t \in {"string", "*int", "bool"}, al \in {"", "x_d"}, v \in {"", "required"} }
     \cup { Prm(n, t, "Body", "", v) : n \in {"e"}, t \in {"p1.Item", "*p1.Item", "[]p1.Item"}, v \in {"", "required"} }
     \cup { Prm("ctx", "context.Context", "Context", "", "") }
 
@@ -76,7 +78,7 @@ ParamListOk(ps) == /\ \A i, j \in DOMAIN ps : i # j => ps[i].name # ps[j].name
                    /\ ~((\E i \in DOMAIN ps : ps[i].kind = "Body") /\ (\E i \in DOMAIN ps : ps[i].kind = "FormField"))
 \* single parameters exhaustively; pairs and triples over a reduced set (one representative per location/pointer-ness)
 ParamsPair == { Prm("a", "string", "Path", "", ""), Prm("a", "int", "Path", "x_a", ""), Prm("a", "string", "Path", "x-a", ""), Prm("b", "*int", "Query", "", ""), Prm("b", "[]string", "Query", "x-b", "required"),
-                Prm("c", "*string", "Header", "X-C", ""), Prm("c", "int", "Header", "", ""), Prm("d", "string", "FormField", "", ""), Prm("d", "*int", "FormField", "", "required"),
+                Prm("c", "*string", "Header", "X-C", ""), Prm("c", "int", "Header", "", ""), Prm("d", "string", "FormField", "", ""), Prm("d", "*int", "FormField", "x_d", "required"),
                 Prm("e", "p1.Item", "Body", "", ""), Prm("e", "*p1.Item", "Body", "", ""), Prm("ctx", "context.Context", "Context", "", "") }
 ParamLists == {<<>>} \cup {<<a>> : a \in ParamsC06} \cup {ps \in {<<a, b>> : a \in ParamsPair, b \in ParamsPair} : ParamListOk(ps)}
               \cup {ps \in {<<Prm("ctx", "context.Context", "Context", "", ""), a, b>> : a \in ParamsPair, b \in ParamsPair} : ParamListOk(ps)}
